@@ -5,6 +5,7 @@ cfg:  n=<instances> keys=<distinct keys> [lazy=<m>]   instance i uses key "k{i %
                           m instances are constructed by `new <i>` in the middle of the history
 ops:  ft <ms> | acquire <i> | release <i> | setexpire <i> <seconds> | ids
       acquirectx <i> | releasectx <i>    the same calls entered through AcquireCtx / ReleaseCtx (same model step)
+      mass <m>            m further NewRedisLock calls: ids pairwise distinct? => distinct <store> | dup <store>
       new <i>             NewRedisLock of a lazy instance => distinct len=16 <store> | dup <store>
                           (the model's instance i has `seconds = 0` until its own SetExpire: nothing is inherited)
       race <i> <j> …      concurrent Acquire calls of distinct instances (real goroutines)
@@ -55,6 +56,7 @@ inductive DOp where
   | inj (p : Nat) (outer : Op) (inner : List Op)
   | lost (outer : Op)
   | new (i : Nat)
+  | mass (m : Nat)
   deriving Repr
 
 def parseInst (n : Nat) (s : String) : Option Nat := do
@@ -97,6 +99,9 @@ def parseOp (n : Nat) : List String → Option DOp
   | ["acquirectx", i] => do pure (.op (.acquire (← parseInst n i)))
   | ["releasectx", i] => do pure (.op (.release (← parseInst n i)))
   | ["new", i] => do pure (.new (← parseInst n i))
+  | ["mass", m] => do
+    let m ← m.toNat?
+    if 1 ≤ m ∧ m ≤ 100000 then pure (.mass m) else none
   | ["setexpire", i, s] => do pure (.op (.setExpire (← parseInst n i) (← s.toInt?)))
   | ["ids"] => some .ids
   | ["down"] => some .down
@@ -560,6 +565,16 @@ def runSection (r : Report) (s : Section) : Report := Id.run do
         r := r.mismatch s.idx l.idx "distinct len=16" impl
         if impl = "dup" then
           r := r.violation s.idx l.idx "two RedisLock instances got the same id: they can hold the key at the same time"
+    | some (.mass m) =>
+      r := { r with ops := r.ops + 1 }
+      r := r.addCover "ids-mass"
+      match l.obs with
+      | res :: dump =>
+        if res = "dup" then
+          r := r.violation s.idx l.idx s!"two RedisLock instances got the same id (among {m} instances constructed on one key): they can hold the key at the same time op=[{joinSp l.op}]"
+        let (r', d') := checkOps c r d [] dump (fun _ => "distinct")
+        r := r'; d := d'
+      | [] => r := r.mismatch s.idx l.idx "distinct <store>" impl
     | some (.new i) =>
       r := { r with ops := r.ops + 1 }
       r := r.addCover "new-instance-mid-history"
